@@ -55,8 +55,14 @@ class Engine:
 _CTX: tuple[Any, int, list[dict[str, Any]]] | None = None
 
 
+_DEADLINE: float | None = None
+
+
 def _work_i(i: int) -> dict[str, Any]:
 	assert _CTX is not None
+	# seeded cases queued behind the deadline are skipped (canonical cases always run)
+	if _DEADLINE is not None and i >= len(_CTX[2]) and time.time() > _DEADLINE:
+		return {'skipped': True}
 	return _work((_CTX[0], _CTX[1], _CTX[2], i))
 
 
@@ -154,13 +160,16 @@ def _main(eng: Engine, tier: str, seed: int, opts: Any) -> int:
 	budget = opts.budget if opts.budget is not None else (eng.quick_budget_s if tier == 'quick' else eng.thorough_budget_s)
 	total = len(canon) + n_seeded
 	deadline = ev.t0 + budget
-	global _CTX
+	global _CTX, _DEADLINE
 	_CTX = (eng, seed, canon)
+	_DEADLINE = deadline
 	violations: list[tuple[dict[str, Any], dict[str, Any]]] = []
 	known_seen: dict[str, int] = {}
 	state = {'done': 0, 'sim_time': 0.0}
 
 	def absorb(i: int, res: dict[str, Any]) -> None:
+		if res.get('skipped'):
+			return
 		state['done'] += 1
 		ev.coverage['evaluations'] += 1
 		ev.coverage['runs'] += 1
